@@ -97,6 +97,8 @@ def inline_unknown_helpers(j, baseline):
                 changed = False
                 for bi, ck in _calls_of(fj):
                     if ck in ready and ck != fk:
+                        # (third component: the caller was nothing but a forwarding wrapper when the helper was expanded into it)
+                        j.setdefault("_inlined_pairs", []).append([fk, ck, len([b_ for b_ in fj["blocks"] if not b_.get("cleanup")]) <= 3])
                         _inline_one(fj, bi, fns[ck])
                         changed = progress = True
                         break
